@@ -11,6 +11,9 @@
 (***************************************************************************)
 EXTENDS Bep15, TLC
 
+CONSTANT NPat   \* value patterns per announce field in the round-trip space (2..4)
+ASSUME NPat \in 2..4
+
 VARIABLE c   \* [g : "root" | "group" | "leaf", grp : name, i : index]
 
 (***************************************************************************)
@@ -25,6 +28,7 @@ Pat(bit, off, n) == IF bit = 0 THEN PatA(off, n) ELSE PatB(off, n)
 Pat4(k, off, n) == CASE k = 0 -> PatA(off, n) [] k = 1 -> PatB(off, n)
                      [] k = 2 -> Zeros(n) [] k = 3 -> Ones(n)
 Bit(i, k) == (i \div (2 ^ k)) % 2
+Dig(i, k) == (i \div (NPat ^ k)) % NPat
 
 EvSeq == <<"none", "completed", "started", "stopped">>
 (* BEP 15 event numbers, stated a second time *)
@@ -49,13 +53,16 @@ RtConnect(i) ==
        /\ At(e, 12, 4) = r.tid
        /\ \A m \in MaxSet : OkRes(ParseRequest(e, m), "connect", r)
 
-AnnReq(i) ==
-    [cid |-> Pat(Bit(i, 0), 0, 8), tid |-> Pat(Bit(i, 1), 12, 4), hash |-> Pat(Bit(i, 2), 16, 20),
-     pid |-> Pat(Bit(i, 3), 36, 20), down |-> Pat(Bit(i, 4), 56, 8), left |-> Pat(Bit(i, 5), 64, 8),
-     up |-> Pat(Bit(i, 6), 72, 8), ip |-> Pat(Bit(i, 7), 84, 4), key |-> Pat(Bit(i, 8), 88, 4),
-     numwant |-> Pat(Bit(i, 9), 92, 4), port |-> Pat(Bit(i, 10), 96, 2),
-     event |-> EvSeq[(i \div 2048) + 1]]
-RtAnnounceN == 2048 * 4
+AnnOf(d(_), ev) ==
+    [cid |-> Pat4(d(0), 0, 8), tid |-> Pat4(d(1), 12, 4), hash |-> Pat4(d(2), 16, 20),
+     pid |-> Pat4(d(3), 36, 20), down |-> Pat4(d(4), 56, 8), left |-> Pat4(d(5), 64, 8),
+     up |-> Pat4(d(6), 72, 8), ip |-> Pat4(d(7), 84, 4), key |-> Pat4(d(8), 88, 4),
+     numwant |-> Pat4(d(9), 92, 4),
+     \* pattern 2 (all zero) is not a port: the all-ones pattern takes its place
+     port |-> Pat4(IF d(10) = 2 THEN 3 ELSE d(10), 96, 2),
+     event |-> ev]
+AnnReq(i) == LET d(k) == Dig(i, k) IN AnnOf(d, EvSeq[(i \div (NPat ^ 11)) + 1])
+RtAnnounceN == (NPat ^ 11) * 4
 RtAnnounce(i) ==
     LET r == AnnReq(i)
         e == EncAnnounceReq(r)
@@ -138,7 +145,7 @@ RtRespError(i) ==
 (* structural classes of request datagrams: parameters, the datagram built *)
 (* from canonical field values, and the expected decision in closed form   *)
 (***************************************************************************)
-BaseAnn == AnnReq(2 * 2048)     \* all fields PatA, event "started"
+BaseAnn == LET d(k) == 0 IN AnnOf(d, "started")     \* all fields PatA
 BaseConn == [tid |-> PatA(12, 4)]
 Kinds3 == <<"connect", "announce", "scrape">>
 (* 120 bytes: the message followed by padding / further hash bytes *)
